@@ -228,6 +228,31 @@ def tmAtG {α : Type} (o : TmOps α) (m : Mode) (f : Img α) (tshape : List Nat)
       o.add diff2 (o.mul delta delta)
     | none => diff2) o.zero
 
+/-! ### mean_filter in the arithmetic of the C++ (`double sum`, `sum / n`) -/
+
+/-- `gather` for any value type (`zero` = the `cval` of `constant` mode, the only one the wrappers accept) -/
+def gatherG {α : Type} (zero : α) (m : Mode) (f : Img α) (fp : List (List Int)) (p : List Int) : List α :=
+  fp.filterMap fun k =>
+    match fixPos m f.shape (addPos p k) with
+    | some q => some (f.getD q zero)
+    | none => if m = .constant then some zero else none
+
+/-- the operations of `double sum = 0; … sum += val; … *rpos = sum / n;` -/
+structure MeanOps (α : Type) where
+  zero : α
+  add : α → α → α
+  div : α → α → α
+  ofNat : Nat → α
+
+def floatMeanOps : MeanOps Float := ⟨0.0, (· + ·), (· / ·), Float.ofNat⟩
+
+/-- `mean_filter<T>` at pixel `p`: the samples (already converted to double — exact for every float value and every
+    integer below `2^53`) are added one by one in scan order starting from `0`, the sum is divided by the number of
+    samples converted to double. The driver runs it with `floatMeanOps` (kind `meanf`). -/
+def meanAtG {α : Type} (o : MeanOps α) (m : Mode) (f : Img α) (fp : List (List Int)) (p : List Int) : α :=
+  let s := gatherG o.zero m f fp p
+  o.div (s.foldl o.add o.zero) (o.ofNat s.length)
+
 /-! ### majority_filter (`_morph.cpp: py_majority_filter`, wrapper in `morph.py`) -/
 
 /-- number of non-zero pixels of the `N × N` window with top-left corner `(y, x)` -/
@@ -308,6 +333,15 @@ def handle (a : Args) : String :=
         let g : Img Float := { shape := shape, data := fd.toArray }
         ps.map fun p => tmAtG floatTmOps m g bshape ft.toArray p
     s!"spec={showInts (ps.map (tmSpecAt m f bshape bc))} exact={showInts (ps.map (tmAt m f bshape bc))} model={showFloats modelF} obs={showBools (ps.map (windowInside shape bshape))}"
+  | "meanf" =>
+    -- `data` = the values times `2^s` as exact integers (specification: exact sum, number of samples, sum of magnitudes),
+    -- `fdata` = the values as binary64 patterns (model: the double accumulation of the C++, bit for bit)
+    let fp := footprint bshape bc
+    let ps := allPos shape
+    let sp := ps.map (meanSpecParts m f fp)
+    let fabs : Img Int := { shape := shape, data := f.data.map Int.natAbs |>.map Int.ofNat }
+    let g : Img Float := { shape := shape, data := (a.floats "fdata").toArray }
+    s!"sum={showInts (sp.map (·.1))} n={showNats (sp.map (·.2))} asum={showInts (ps.map fun p => (meanSpecParts m fabs fp p).1)} model={showFloats (ps.map (meanAtG floatMeanOps m g fp))}"
   | "currank" =>
     -- `n`, `n2`, `rank`: lists of equal length; the C++ expression in binary64 against the integer floor
     let ns := a.nats "n"
